@@ -1,19 +1,27 @@
-"""E3 — exactly-once obligations (linear typestate over the CFG).
+"""E3 — exactly-once obligations (linear typestate over the CFG, interprocedural
+through hand-offs).
 
-A *token* is a callable (completion callback parameter, captured copy of one,
-a local wrapping one) that must be *discharged* exactly once on every path from
-function entry to exit.  A discharge is
-  * invoking it:                     tok(args) / tok.getValue()(args) / (*tok)(args)
-  * handing it to a consumer:        f(std::move(tok)) / f(tok) where the matching
-                                     parameter of f is itself under an exactly-once
-                                     obligation (verified recursively when f's body
-                                     is in the program, else listed in `sinks`)
-  * capturing it into a continuation lambda that is passed to a consumer and
-    whose body discharges the captured token exactly once (verified recursively)
+A *token set* is a set of variables of one function through which one pending
+completion can be discharged: a completion callback parameter, a TaskInterface
+whose `complete` must be called, a copy captured by a lambda, a local that
+wraps one.  On every path from function entry to exit the token set must be
+discharged exactly once.  A discharge is
+
+  * an invocation:      tok(args), tok.getValue()(args), (*tok)(args), or
+                        tok.<m>(…) for m in `invoke_names` (e.g. `complete`)
+  * a hand-off:         a call some of whose arguments *carry* the tokens — the
+                        token itself (possibly std::move'd / wrapped in
+                        constructions) or a continuation lambda capturing it
+                        whose body may discharge it.  The callee (all overriders
+                        for a virtual call) is analysed with the matching
+                        parameters as its joint token set and must itself
+                        discharge exactly once on every path; a callee that never
+                        discharges is an observer and the call is not a discharge.
+                        Callees without a body must be listed in `sinks`.
 For llvm::Optional<callable> tokens the empty arm of `if (tok.hasValue())`
 counts as discharged (there is nothing to call).
-A local initialised from a lambda that captures the token (or from a move of the
-token) becomes an alias: discharging the alias discharges the token.
+A local initialised from a discharging lambda that captures the token, or from a
+move/copy of the token, joins the token set (alias).
 """
 from .facts import expr_str, strip_casts, core, qmatch
 from . import cfg as C
@@ -25,19 +33,46 @@ class OnceResult(object):
         self.exit_counts = None
         self.problems = []       # (kind, message, node, path)
         self.sites = []          # discharge descriptions
-        self.sub = []            # nested results (lambdas / callees)
+        self.n_sites = 0
 
     def fail(self, kind, msg, node=None, path=None):
         self.ok = False
-        self.problems.append((kind, msg, node, path))
+        if (kind, msg) not in [(p[0], p[1]) for p in self.problems]:
+            self.problems.append((kind, msg, node, path))
+
+    @property
+    def observer(self):
+        return self.n_sites == 0
 
 
 def _is_move(n):
     return n is not None and n.get("k") == "call" and (n.get("fn") or "") in ("std::move", "std::forward")
 
 
+WRAP = ("construct", "cast", "initlist", "stdinitlist")
+
+
+def _unwrap_iter(n):
+    """n and everything reachable through value wrappers (constructions, casts,
+    init lists, std::move)."""
+    stack = [n]
+    seen = set()
+    while stack:
+        x = stack.pop()
+        if x is None or x["id"] in seen:
+            continue
+        seen.add(x["id"])
+        yield x
+        k = x.get("k")
+        if k in WRAP:
+            stack.extend(x.children())
+        elif _is_move(x):
+            stack.append(x.fn.nodes[x["args"][0]])
+        elif k == "call" and x.get("ck") == "free" and (x.get("fn") or "").split("::")[-1] in ("make_unique", "make_shared"):
+            stack.extend(x.children())
+
+
 def _tok_ref(n, dids):
-    """is expression n (modulo casts, std::move, copies) a plain reference to a token?"""
     n = core(n)
     while _is_move(n):
         n = core(n.fn.nodes[n["args"][0]])
@@ -47,7 +82,6 @@ def _tok_ref(n, dids):
 
 
 def _tok_value(n, dids):
-    """tok, tok.getValue(), *tok, tok.value() -> the token ref."""
     n = core(n)
     if n is None:
         return None
@@ -62,40 +96,124 @@ def _tok_value(n, dids):
 
 
 class OnceChecker(object):
-    def __init__(self, prog, sinks=(), max_depth=6, invoke_names=()):
+    def __init__(self, prog, sinks=(), max_depth=8, invoke_names=(), token_type_pred=None, trusted_callees=()):
         self.prog = prog
-        self.sinks = list(sinks)         # [(callee suffix, param index)]
+        self.sinks = list(sinks)         # [(callee suffix | '<callable>name', param index | None)]
         self.memo = {}
         self.max_depth = max_depth
-        self.invoke_names = set(invoke_names)   # member functions whose call on the token discharges it (e.g. 'complete')
+        self.invoke_names = set(invoke_names)
+        self.token_type_pred = token_type_pred
+        self.trusted_callees = list(trusted_callees)   # bodies that hand the completion to client code
+        self.trusted_used = set()
+        self._overriders = None
 
     # ------------------------------------------------------------------
     def is_sink(self, call, idx):
         fn = call.get("fn") or ""
         for suf, i in self.sinks:
+            if suf.startswith("<callable>"):
+                continue
             if (i is None or i == idx) and qmatch(fn, suf):
                 return True
         return False
 
-    def check_param(self, fn, pidx, depth=0):
-        key = (fn.key, pidx)
+    def overriders(self, fk):
+        if self._overriders is None:
+            m = {}
+            for f in self.prog.functions.values():
+                for o in f.overrides:
+                    m.setdefault(o, []).append(f)
+            self._overriders = m
+        return self._overriders.get(fk, [])
+
+    def callees(self, call):
+        out = []
+        fk = call.get("fk")
+        f = self.prog.functions.get(fk)
+        if f is not None:
+            out.append(f)
+        if call.get("vm") and not call.get("qualified"):
+            for o in self.overriders(fk):
+                if o not in out:
+                    out.append(o)
+        return out
+
+    def check_params(self, fn, idxs, depth=0):
+        idxs = tuple(sorted(idxs))
+        key = (fn.key, idxs)
         if key in self.memo:
             return self.memo[key]
-        self.memo[key] = None     # recursion guard: assume ok while in progress
-        p = fn.params[pidx]
-        optional = "Optional<" in fn.db_types[p["ct"]]
-        res = self.check(fn, {p["did"]}, optional, depth, label=p["n"] or None)
+        self.memo[key] = None     # recursion guard
+        dids = set()
+        optional = False
+        names = []
+        for i in idxs:
+            if i >= len(fn.params):
+                continue
+            p = fn.params[i]
+            dids.add(p["did"])
+            names.append(p["n"] or "#%d" % i)
+            if "Optional<" in fn.db_types[p["ct"]]:
+                optional = True
+        res = self.check(fn, dids, optional, depth, label="/".join(names))
         self.memo[key] = res
         return res
+
+    def check_param(self, fn, pidx, depth=0):
+        return self.check_params(fn, (pidx,), depth)
+
+    # ------------------------------------------------------------------
+    def _lambda_result(self, lam, dids, depth):
+        """(inner dids, OnceResult|None) of a lambda capturing tokens."""
+        lf = self.prog.lambda_fn(lam)
+        if lf is None:
+            return None, None
+        inner = set()
+        opt = False
+        for c in lam.get("caps", []):
+            hit = c.get("did") in dids
+            if not hit:
+                for key in ("init", "e"):
+                    if key in c and isinstance(c[key], int) and c[key] >= 0:
+                        init = lam.fn.nodes[c[key]]
+                        if any(x.get("k") == "ref" and x.get("did") in dids for x in init.walk()):
+                            hit = True
+            if hit and c.get("did") is not None:
+                inner.add(c["did"])
+                if "t" in c and "Optional<" in lf.db_types[c["t"]]:
+                    opt = True
+        if not inner:
+            return None, None
+        key = ("lambda", lf.key, tuple(sorted(inner)))
+        if key in self.memo:
+            return inner, self.memo[key]
+        if depth >= self.max_depth:
+            return inner, None
+        self.memo[key] = None
+        sub = self.check(lf, inner, opt, depth + 1, label="captured completion")
+        self.memo[key] = sub
+        return inner, sub
+
+    def _carriers(self, fn, arg, dids, depth, res):
+        """what in `arg` carries the token: ('tok', ref) | ('lam', lambda node, sub result)"""
+        out = []
+        for x in _unwrap_iter(arg):
+            if x.get("k") == "ref" and x.get("did") in dids:
+                out.append(("tok", x, None))
+            elif x.get("k") == "lambda":
+                inner, sub = self._lambda_result(x, dids, depth)
+                if inner and (sub is None or not sub.observer):
+                    out.append(("lam", x, sub))
+        return out
 
     # ------------------------------------------------------------------
     def check(self, fn, dids, optional=False, depth=0, label=None):
         res = OnceResult()
         dids = set(dids)
-        label = label or "/".join(sorted(str(d) for d in dids))
-        # ---- aliases: locals initialised from the token or from a lambda capturing it
+        label = label or "completion"
+        # ---- aliases
         changed = True
-        alias_lambdas = {}
+        alias_inits = {}
         while changed:
             changed = False
             for n in fn.nodes:
@@ -105,80 +223,66 @@ class OnceChecker(object):
                     if v["did"] in dids or "init" not in v:
                         continue
                     init = fn.nodes[v["init"]]
-                    ic = core(init)
-                    lam = None
-                    for x in init.walk():
-                        if x.get("k") == "lambda" and self._captures(x, dids):
-                            lam = x
-                    if lam is not None and self._only_wraps(init, lam):
+                    car = self._carriers(fn, init, dids, depth, res)
+                    if car:
                         dids.add(v["did"])
-                        alias_lambdas[v["did"]] = lam
+                        alias_inits[v["did"]] = (init, car)
                         changed = True
-                    elif _tok_ref(ic, dids) is not None and _is_move(core_nomove(init)):
-                        dids.add(v["did"])
-                        changed = True
+        alias_init_nodes = set()
+        for did, (init, car) in alias_inits.items():
+            for x in init.walk():
+                alias_init_nodes.add(x["id"])
+            for kind, node, sub in car:
+                if kind == "lam" and sub is not None and not sub.ok:
+                    for k_, msg, nd, path in sub.problems:
+                        res.fail(k_, "in continuation @L%d: %s" % (node.line, msg), nd or node, path)
+
         # ---- discharge elements
-        discharge = {}      # node id -> description
-        pos = fn.elem_pos()
+        discharge = {}
         for n in fn.nodes:
             k = n.get("k")
+            if k not in ("call", "construct") or n["id"] in alias_init_nodes:
+                continue
+            if _is_move(n):
+                continue
             if k == "call":
-                # direct invocation
                 if n.get("ck") == "operator" and n.get("op") == "()" and "obj" in n and _tok_value(n.child("obj"), dids) is not None:
-                    discharge[n["id"]] = "invoke %s" % expr_str(n)[:60]
+                    discharge[n["id"]] = "invoke %s" % expr_str(n)[:50]
                     continue
                 if n.get("ck") == "indirect" and _tok_value(n.child("callee"), dids) is not None:
-                    discharge[n["id"]] = "invoke %s" % expr_str(n)[:60]
+                    discharge[n["id"]] = "invoke %s" % expr_str(n)[:50]
                     continue
                 if n.get("ck") == "member" and "obj" in n and (n.get("fn") or "").split("::")[-1] in self.invoke_names \
                         and _tok_ref(n.child("obj"), dids) is not None:
-                    discharge[n["id"]] = "invoke %s" % expr_str(n)[:60]
+                    discharge[n["id"]] = "invoke %s" % expr_str(n)[:50]
                     continue
-            if k in ("call", "construct"):
-                if _is_move(n):
+            if k == "construct":
+                # constructions are value wrappers unless they are listed consumers or stand alone
+                par = fn.parent_of(n)
+                listed = any(self.is_sink(n, i) for i in range(len(n.get("args", []))))
+                if not listed:
                     continue
-                name = (n.get("fn") or "").split("::")[-1]
-                if "obj" in n and _tok_ref(n.child("obj"), dids) is not None:
-                    continue      # method on the token itself (hasValue, getValue, operator bool)
-                args = n.get("args", [])
-                for i, a in enumerate(args):
-                    if a < 0:
-                        continue
-                    an = fn.nodes[a]
-                    # (1) the token itself handed over
-                    if _tok_ref(an, dids) is not None:
-                        if k == "construct" and (n.get("copymove") or len(args) == 1) and not self.is_sink(n, i):
-                            continue   # copy/move construction: transparent (core() strips it at the consumer)
-                        if name in ("hasValue", "getValue"):
-                            continue
-                        v = self._handoff(fn, n, i, depth, res)
-                        if v:
-                            discharge[n["id"]] = "hand-off to %s#%d" % (n.get("fn"), i)
-                        break
-                    # (2) a continuation lambda capturing the token passed to a consumer
-                    lam = None
-                    for x in an.walk():
-                        if x.get("k") == "lambda" and self._captures(x, dids):
-                            lam = x
-                            break
-                    if lam is not None:
-                        if k == "construct" and self._enclosing_decl_alias(fn, n, alias_lambdas):
-                            continue  # wrapped into an alias local, handled through the alias
-                        if k == "construct" and not self.is_sink(n, i):
-                            # wrapper object (std::function{lambda}, QueueJob{…, lambda}) — the consumer is further out
-                            par = fn.parent_of(n)
-                            if par is not None and par.get("k") in ("call", "construct", "cast", "initlist"):
-                                continue
-                        if k == "call" or self.is_sink(n, i):
-                            okc = self._consumer_ok(fn, n, i, depth, res)
-                            self._check_lambda(lam, dids, depth, res)
-                            if okc:
-                                discharge[n["id"]] = "continuation passed to %s#%d" % (n.get("fn") or expr_str(n)[:30], i)
-                            break
-        # alias lambdas must themselves discharge the captured token once
-        for did, lam in alias_lambdas.items():
-            self._check_lambda(lam, dids - {did}, depth, res)
-        res.sites = sorted(discharge.values())
+            args = n.get("args", [])
+            carried = {}
+            for i, a in enumerate(args):
+                if a < 0:
+                    continue
+                car = self._carriers(fn, fn.nodes[a], dids, depth, res)
+                if car:
+                    carried[i] = car
+            if not carried:
+                continue
+            verdict = self._consume(fn, n, carried, depth, res)
+            if verdict:
+                discharge[n["id"]] = "hand-off to %s%s" % ((n.get("fn") or expr_str(n)[:30]).split("(")[0], sorted(carried))
+                # continuation bodies must be exact
+                for i, car in carried.items():
+                    for kind, node, sub in car:
+                        if kind == "lam" and sub is not None and not sub.ok:
+                            for k_, msg, nd, path in sub.problems:
+                                res.fail(k_, "in continuation @L%d: %s" % (node.line, msg), nd or node, path)
+        res.sites = sorted(set(discharge.values()))
+        res.n_sites = len(discharge)
 
         # ---- count dataflow
         def transfer(st, p, e):
@@ -209,148 +313,87 @@ class OnceChecker(object):
         in_state, at = C.forward(fn, frozenset([0]), transfer, edge, meet=lambda a, b: a | b)
         ex = in_state.get(fn.exit)
         res.exit_counts = sorted(ex) if ex is not None else None
-        if ex is None:
-            return res      # no path reaches the exit (noreturn): vacuous
+        if ex is None or res.n_sites == 0 and not optional:
+            # no path reaches the exit, or pure observer: nothing to require here
+            if res.n_sites == 0:
+                res.exit_counts = [0]
+            return res
+        if res.n_sites == 0:
+            return res
         if 0 in ex:
-            w = C.path_exists(fn, C.entry_pos(fn), C.is_exit,
-                              avoid=lambda p, e: isinstance(e, int) and e in discharge)
-            # the optional-empty edge may be what zeroes: report path anyway
-            res.fail("never", "a path reaches the exit without discharging '%s'" % label, None, describe_path(fn, w))
+            w = C.path_exists(fn, C.entry_pos(fn), C.is_exit, avoid=lambda p, e: isinstance(e, int) and e in discharge)
+            res.fail("never", "a path reaches the exit of %s without discharging '%s'" % (short(fn), label), None, describe_path(fn, w))
         if 2 in ex:
-            res.fail("twice", "'%s' may be discharged more than once on a path" % label, None, None)
+            res.fail("twice", "'%s' may be discharged more than once on a path of %s" % (label, short(fn)), None, None)
         return res
 
     # ------------------------------------------------------------------
-    def _captures(self, lam, dids):
-        for c in lam.get("caps", []):
-            if c.get("did") in dids:
+    def _consume(self, fn, call, carried, depth, res):
+        """is `call` a discharge, given the argument indexes that carry the token?"""
+        idxs = sorted(carried)
+        # indirect call through a callable that is not a token: listed consumers only
+        if call.get("k") == "call" and (call.get("ck") == "indirect" or (call.get("ck") == "operator" and call.get("op") == "()")):
+            tgt = core(call.child("obj")) if "obj" in call else core(call.child("callee"))
+            nm = expr_str(tgt) if tgt is not None else "?"
+            if call.get("ck") == "operator":
+                idxs_ok = any(suf in ("<callable>" + nm, "<callable>*") for suf, _ in self.sinks)
+                if idxs_ok:
+                    return True
+                res.fail("unverified", "completion handed to callable '%s', which is not a listed exactly-once consumer" % nm, call)
                 return True
-            for key in ("init", "e"):
-                if key in c and isinstance(c[key], int) and c[key] >= 0:
-                    init = lam.fn.nodes[c[key]]
-                    if any(x.get("k") == "ref" and x.get("did") in dids for x in init.walk()):
-                        return True
-        return False
-
-    def _only_wraps(self, init, lam):
-        """init is the lambda possibly wrapped in constructions / casts / init lists."""
-        n = init
-        while n is not None and n is not lam:
-            k = n.get("k")
-            kids = [c for c in n.children()]
-            if k in ("construct", "cast", "initlist", "stdinitlist") and len(kids) >= 1:
-                nxt = None
-                for c in kids:
-                    if c is lam or any(x is lam for x in c.walk()):
-                        nxt = c
-                n = nxt
-            else:
-                return False
-        return n is lam
-
-    def _enclosing_decl_alias(self, fn, n, alias_lambdas):
-        for a in fn.ancestors(n):
-            if a.get("k") == "decl":
-                return any(v["did"] in alias_lambdas for v in a.get("vars", []))
-            if a.get("k") in ("call",):
-                return False
-        return False
-
-    def _captured_dids(self, lam, dids):
-        """decl ids under which the lambda body sees the token."""
-        out = set()
-        for c in lam.get("caps", []):
-            if c.get("did") in dids:
-                out.add(c["did"])
-            else:
-                for key in ("init", "e"):
-                    if key in c and isinstance(c[key], int) and c[key] >= 0:
-                        init = lam.fn.nodes[c[key]]
-                        if any(x.get("k") == "ref" and x.get("did") in dids for x in init.walk()):
-                            out.add(c.get("did"))
-        return out
-
-    def _check_lambda(self, lam, dids, depth, res):
-        lf = self.prog.lambda_fn(lam)
-        if lf is None:
-            res.fail("unresolved", "continuation lambda body not found", lam)
-            return
-        if depth >= self.max_depth:
-            return
-        inner = self._captured_dids(lam, dids)
-        if not inner:
-            return
-        opt = any("Optional<" in lf.db_types[c.get("t", 0)] for c in lam.get("caps", []) if c.get("did") in inner and "t" in c)
-        key = ("lambda", lf.key, tuple(sorted(inner)))
-        if key in self.memo:
-            sub = self.memo[key]
-        else:
-            self.memo[key] = None
-            sub = self.check(lf, inner, opt, depth + 1, label="captured token")
-            self.memo[key] = sub
-        if sub is not None:
-            res.sub.append(sub)
-            if not sub.ok:
-                for kind, msg, node, path in sub.problems:
-                    res.fail(kind, "in continuation %s: %s" % (lf.key.split("::")[-1] + "@L%d" % lf.line, msg), node or lam, path)
-
-    def _callee(self, call):
-        fk = call.get("fk")
-        f = self.prog.functions.get(fk)
-        return f
-
-    def _handoff(self, fn, call, idx, depth, res):
-        if self.is_sink(call, idx):
+        if all(self.is_sink(call, i) for i in idxs):
             return True
-        callee = self._callee(call)
-        if callee is not None and idx < len(callee.params) and depth < self.max_depth:
-            sub = self.check_param(callee, idx, depth + 1)
-            if sub is None:
-                return True
-            res.sub.append(sub)
-            if not sub.ok:
-                for kind, msg, node, path in sub.problems:
-                    res.fail(kind, "in callee %s: %s" % (callee.name.split("::")[-1], msg), node or call, path)
+        cs = self.callees(call)
+        if cs and depth < self.max_depth:
+            verdicts = []
+            for callee in cs:
+                if any(qmatch(callee.name, t) for t in self.trusted_callees):
+                    self.trusted_used.add(callee.name)
+                    verdicts.append(("once", callee, None))
+                    continue
+                sub = self.check_params(callee, idxs, depth + 1)
+                if sub is None:
+                    verdicts.append(("rec", callee, None))
+                elif sub.observer:
+                    verdicts.append(("observer", callee, sub))
+                elif sub.ok:
+                    verdicts.append(("once", callee, sub))
+                else:
+                    verdicts.append(("bad", callee, sub))
+            kinds = set(v[0] for v in verdicts)
+            has_lambda = any(kind == "lam" for car in carried.values() for kind, _, _ in car)
+            if kinds <= {"observer"}:
+                if has_lambda:
+                    res.fail("dropped", "continuation is passed to %s, which never invokes it" % short(cs[0]), call)
+                    return True
+                return False
+            for kind, callee, sub in verdicts:
+                if kind == "bad":
+                    for k_, msg, nd, path in sub.problems:
+                        res.fail(k_, "in callee %s: %s" % (short(callee), msg), call, path)
+                elif kind == "observer" and len(verdicts) > 1:
+                    res.fail("never", "override %s never discharges the completion its siblings discharge" % short(callee), call)
+            return True
+        if cs and depth >= self.max_depth:
             return True
         pts = call.get("pt", [])
-        t = fn.db_types[pts[idx]] if idx < len(pts) and pts[idx] >= 0 else ""
-        if t.startswith("const ") and t.endswith("&"):
-            return False        # observed, not consumed
-        res.fail("unverified", "token handed to %s (argument %d), which is neither analysable nor a listed consumer" % (
-            call.get("fn") or expr_str(call)[:40], idx), call)
-        return True
-
-    def _consumer_ok(self, fn, call, idx, depth, res):
-        """the callee invokes the continuation passed at idx exactly once."""
-        if self.is_sink(call, idx):
-            return True
-        # invoking a std::function parameter / local (e.g. releaseFn(lambda)): consumer must be listed
-        if call.get("ck") == "operator" and call.get("op") == "()":
-            tgt = core(call.child("obj")) if "obj" in call else None
-            nm = expr_str(tgt) if tgt is not None else "?"
-            for suf, i in self.sinks:
-                if suf == "<callable>" + nm or suf == "<callable>*":
-                    return True
-            res.fail("unverified", "continuation passed to callable '%s', which is not a listed exactly-once consumer" % nm, call)
-            return True
-        callee = self._callee(call)
-        if callee is not None and idx < len(callee.params) and depth < self.max_depth:
-            sub = self.check_param(callee, idx, depth + 1)
-            if sub is None:
-                return True
-            res.sub.append(sub)
-            if not sub.ok:
-                for kind, msg, node, path in sub.problems:
-                    res.fail(kind, "in callee %s: %s" % (callee.name.split("::")[-1], msg), node or call, path)
-            return True
-        res.fail("unverified", "continuation passed to %s (argument %d), which is neither analysable nor a listed consumer" % (
-            call.get("fn") or expr_str(call)[:40], idx), call)
+        only_tok = all(kind == "tok" for car in carried.values() for kind, _, _ in car)
+        if only_tok and all((fn.db_types[pts[i]] if i < len(pts) and pts[i] >= 0 else "").startswith("const ") for i in idxs):
+            return False        # observed by const reference
+        if only_tok and self.token_type_pred is not None and \
+                all(self.token_type_pred(node.ctype()) for car in carried.values() for _, node, _ in car):
+            # a copyable handle (TaskInterface) given to a function without a body: observer unless listed
+            return False
+        res.fail("unverified", "completion handed to %s (arguments %s), which is neither analysable nor a listed consumer" % (
+            call.get("fn") or expr_str(call)[:40], idxs), call)
         return True
 
 
-def core_nomove(n):
-    n = core(n)
-    return n
+def short(fn):
+    if fn.is_lambda:
+        return "lambda@%s:%d" % (fn.file.split("/")[-1], fn.line)
+    n = fn.name.split("::")
+    return "::".join(n[-2:]) if len(n) > 1 else n[0]
 
 
 def describe_path(fn, blocks):
